@@ -129,7 +129,7 @@ static void run() {
     }
     // phrases: quick = stride-sampled substitutions in the sorted languages (all 2047 per position in thorough), Chinese sampled
     rc_run("c02-phrases", a.n(40, 700), 100, [&]() {
-        auto sec = *g::secret19(); int bd = *g::birthday(); unsigned uf = *in_range<unsigned>(0, 8), enc = *in_range<unsigned>(0, 2); int coin = *g::coin(); int li = *g::lang_index();
+        auto sc = *g::seed_coin(); auto sec = sc.sec; int bd = sc.bd; unsigned uf = sc.feat & 7u, enc = (sc.feat >> 4) & 1u; int coin = sc.coin; int li = *g::lang_index(); if (sc.patterned) W().ev.count("gen:patterned-word-indices");
         const lib::LangEntry& le = REG->at(li); bool zh = is_zh(le.name_en);
         bool full = W().args.thorough() ? !zh || *in_range<int>(0, 8) == 0 : (!zh && *in_range<int>(0, 4) == 0);
         Case c; c.set("kind", "phrase"); c.set("secret", hex(sec)); c.set("birthday", (uint64_t)bd); c.set("ufeat", uf); c.set("enc", enc); c.set("coin", (uint64_t)coin); c.set("lang", le.name_en);
